@@ -716,7 +716,7 @@ static void static_local_addr(void)
             int k = 300 + t * 2 + fixed;
             mk_static_addr(TPS[t], k, addr, sizeof addr, "127.0.0.1");
             int lport = fixed ? g_port + 900 + k : 0;
-            const char *latp = !strcmp(TPS[t], "utls") ? "tls" : TPS[t];
+            const char *latp = TPS[t];   /* a utls socket takes a utls: local address */
             snprintf(la, sizeof la, "%s:127.0.0.2:%d", latp, lport);
             struct xcm_attr_map *m = nb_map(bs), *cm = nb_map(bs);
             xcm_attr_map_add_str(cm, "xcm.local_addr", la);
@@ -1025,7 +1025,7 @@ static void scenario(const char *params)
     const char *wire_tp = !strcmp(g_tp, "utlstls") ? "tls" : g_tp;
     snprintf(g_addr, sizeof g_addr, "%s:127.0.0.1:%d", wire_tp, g_port);
     snprintf(g_caddr, sizeof g_caddr, "%s:eff.verif.test:%d", !strcmp(g_tp, "utlstls") ? "utls" : g_tp, g_port);
-    snprintf(g_local, sizeof g_local, "%s:127.0.0.2:0", wire_tp);
+    snprintf(g_local, sizeof g_local, "%s:127.0.0.2:0", !strcmp(g_tp, "utlstls") ? "utls" : g_tp);
     /* the history */
     if (!strcmp(g_mode, "accept")) {
         /* server side: one or two ops, each either in the accept map or on the established accepted socket */
